@@ -631,10 +631,16 @@ impl<'a> Gen<'a> {
                 )
             }
             4 if !self.loop_counters.is_empty() => {
+                // (c & 3) + 1: the name may have been rebound to anything by an inner `let`,
+                // so the bound is masked - every generated loop bound is at most 4
                 let c = self.r.pick(&self.loop_counters).clone();
                 Expr::Bin(
                     BinOp::Add,
-                    Box::new(Expr::Ident(c)),
+                    Box::new(Expr::Group(Box::new(Expr::Bin(
+                        BinOp::And,
+                        Box::new(Expr::Ident(c)),
+                        Box::new(Expr::Num(3, Radix::Dec)),
+                    )))),
                     Box::new(Expr::Num(1, Radix::Dec)),
                 )
             }
